@@ -77,6 +77,31 @@ def returned_list_names(fn, n_expected):
     return names
 
 
+def subsets_reach(ctx, it, q, m, fn):
+    """the neighbour search of one feature value runs on the two subsets of that value, on every path"""
+    subs = [e for e in it.events if e.kind == "call" and e.name.endswith("Motl.get_motl_subset") and e.fn == q]
+    srch = [e for e in it.events if e.kind == "call" and e.name.endswith("nnana.get_feature_nn_indices") and e.fn == q]
+    if not srch:
+        raise Unsupported(f"call of get_feature_nn_indices not found in {q}", fn)
+    rets = {id(e.extra.get("ret")) for e in subs}
+    for e in srch:
+        for k in (0, 1):
+            a_ = e.arg(k)
+            ctx.count(1)
+            if id(a_) in rets:
+                continue
+            sp_ = getattr(getattr(a_, "attrs", {}).get("df"), "space", None) if isinstance(a_, Obj) else None
+            if sp_ is not None and sp_.how == "join":
+                cnd_ = getattr(sp_, "cond", None)
+                own_, other_ = ("a:", "b:") if k == 0 else ("b:", "a:")
+                if cnd_ is not None and any(s_.startswith(own_) for s_ in tm.symbols(cnd_)) and not any(s_.startswith(other_) for s_ in tm.symbols(cnd_)):
+                    # a shortcut decided from the list's own content (it may establish that the list holds one value only): not decided here
+                    raise Unsupported("the subset step is skipped under a condition on the list's own content", e.node)
+                ctx.finding(q, e.node, f"on some path the {'query' if k == 0 else 'neighbour'} list handed to the per-tomogram search is not the subset of "
+                            "the current feature value (tomogram): the search then runs over particles of other tomograms (extra rows, neighbours "
+                            "from another tomogram)", e.node, m)
+
+
 def o182(ctx):
     q = NN + "get_nn_distances"
     m, fn = ctx.prog.func(q)
@@ -93,6 +118,7 @@ def o182(ctx):
             or any(to_term(s_.kwargs.get("feature_id", K(None))) != sym("feature") for s_ in subs):
         ctx.finding(q, subs[0].node if subs else fn, "both lists must be restricted to the same feature value (same tomogram) with the "
                     "requested feature field", subs[0].node if subs else fn, m)
+    subsets_reach(ctx, it, q, m, fn)
     # tree built on neighbours, queried with the query list (complete positions)
     trees = [e for e in it.events if e.kind == "call" and e.name.endswith("KDTree")]
     qs = [e for e in it.events if e.kind == "call" and e.name == "method:query"]
@@ -173,6 +199,7 @@ def o182(ctx):
     m2, fn2 = ctx.prog.func(q2)
     it2, r2 = run(ctx, "get_nn_rotations", {"nn_number": P("k"), "feature": P("feature")})
     space_rule(ctx, it2, "nnana.")
+    subsets_reach(ctx, it2, q2, m2, fn2)
     rr = [e for e in it2.events if e.kind == "call" and e.name == "list.append" and e.fn == q2 and isinstance(e.args[1], Rot)]
     if len(rr) != 1 or not isinstance(rr[0].args[1], Rot):
         raise Unsupported("relative rotation accumulation not recognised", fn2)
@@ -292,4 +319,4 @@ def _obligations():
 
 
 def obligations():
-    return _obligations() + [constructors_obligation(['cryomotl.Motl', 'cryomotl.EmMotl']), labels_obligation("C18"), selectors_obligation("C18"), effects_obligation("C18"), plumbing_obligation("C18"), overrides_obligation("C18"), options_obligation("C18")]
+    return _obligations() + [constructors_obligation(['cryomotl.Motl', 'cryomotl.EmMotl']), labels_obligation("C18"), selectors_obligation("C18"), effects_obligation("C18"), plumbing_obligation("C18"), overrides_obligation("C18"), options_obligation("C18"), handlers_obligation("C18")]
